@@ -48,6 +48,7 @@ inductive Op where
   | smMin
   | smFree
   | mpInit (size : Nat)
+  | mpUse (size : Nat)
   | mpMalloc
   | mpFree (id : Nat)
   | mpFreenth (j : Nat)
@@ -92,7 +93,9 @@ structure S where
   eqr : Nat := 1
   eq : Option (List (List UInt8)) := none
   sm : Option SmIdeal := none
-  inUse : List Nat := []
+  inUse : List Nat := []                  -- the objects in use of the pool in use
+  mpSize : Nat := 4                       -- the pool in use (its cache size)
+  parkedU : Nat → List Nat := fun _ => [] -- the objects in use of the other pools (`mp_use`), by cache size
 
 abbrev Verdict := Option String        -- `none` = accepted
 
@@ -162,7 +165,7 @@ def monStep (s : S) (op : Op) (a : Ans) : S × Verdict :=
   match op with
   | .failat _ | .failfrom _ | .failoff => okOr s (a.isJust .ok) "answer"
   | .end_ =>
-    if a.head == .end_ && a.ntoks == 3 && a.live == some 0 && a.leaked == some 0 then ({}, none)
+    if a.head == .end_ && a.ntoks == 3 && a.live == some 0 && a.leaked == some 0 then ({ mpSize := s.mpSize }, none)
     else (s, some "memory still allocated after every object was released with its free call")
   -- ---------------------------------------------------------------- elastic array
   | .eaInit n r seed =>
@@ -319,11 +322,18 @@ def monStep (s : S) (op : Op) (a : Ans) : S × Verdict :=
     | none => skipOr "answer without a map"
     | some _ => ({ s with sm := none }, if a.isJust .ok then none else some "answer")
   -- -------------------------------------------------------------- object pool
-  | .mpInit _ =>
+  | .mpInit size =>
     -- the harness ends the current pool (exit handler; objects in use are the caller's and are freed by it) and takes the
     -- pool of the requested cache size; the rules below hold for every cache size.  (`skip`: black-box harness whose
     -- pools are gone for good.)
-    if a.isJust .ok then ({ s with inUse := [] }, none) else skipOr "answer"
+    if a.isJust .ok then ({ s with inUse := [], mpSize := size, parkedU := fun _ => [] }, none) else skipOr "answer"
+  | .mpUse size =>
+    -- the pool in use changes; nothing ends: the pool left keeps its objects in use (and its cache).  The rules for
+    -- `mp_malloc` / `mp_free` are those of the pool in use, over its own set of objects in use.
+    if a.head == .ok then
+      let pk : Nat → List Nat := fun j => if j = s.mpSize then s.inUse else s.parkedU j
+      ({ s with inUse := pk size, mpSize := size, parkedU := pk }, none)
+    else skipOr "answer"
   | .mpMalloc =>
     match a.head, a.rf with
     | .ok, some rfn =>
@@ -348,7 +358,8 @@ def monStep (s : S) (op : Op) (a : Ans) : S × Verdict :=
       | none => (s, some "free of an object not in use")
     | _, _ => (s, some "unparsable answer")
   | .mpExit =>
-    if a.head == .ok && a.ntoks == 2 && a.leaked == some 0 then ({ s with inUse := [] }, none)
-    else (s, some "the pool did not release every cached object at exit")
+    -- process exit: the handler of every pool ran; `leaked` counts the objects of every pool that are not in use
+    if a.head == .ok && a.ntoks == 2 && a.leaked == some 0 then ({ s with inUse := [], parkedU := fun _ => [] }, none)
+    else (s, some "the pools did not release every cached object at exit")
 
 end Percival.Spec.DSMon
